@@ -423,9 +423,9 @@ func c20Extra4(c *Ctx, r *Report) {
 	r.Rule("C20-stringer", 1, "the course is formatted through its String method")
 	n := 0
 	for _, fn := range c.SrcFuncs(pkg) {
-		for _, ci := range callsTo(fn, false, "fmt.Fprintf", "fmt.Sprintf") {
+		for _, ci := range callsTo(fn, false, "fmt.Fprintf", "fmt.Sprintf", "fmt.Appendf") {
 			fi := 0
-			if callName(ci.Common()) == "fmt.Fprintf" {
+			if n := callName(ci.Common()); n == "fmt.Fprintf" || n == "fmt.Appendf" {
 				fi = 1
 			}
 			format, ok := constString(ci.Common().Args[fi])
